@@ -204,3 +204,36 @@ class lemma_translation:
     def post_shift(L, o, k, Lb, ob):
         D = 7 * o + L + k
         return staff_steps(D % 7, D // 7, Lb, ob) == staff_steps(L, o, Lb, ob) + k
+
+
+# ------------------------------------------------------------------------------------------------ the converter of the agnostic tokenizers
+from kernpy.core.tokenizers import AEKernTokenizer
+
+
+class ProbeToken:
+    """A token whose export hands its text to the pitch converter it receives: exposes the nested converter function of
+    AEKernTokenizer.tokenize to the lemma below."""
+    def __init__(self, text):
+        self.text = text
+
+    def export(self, **kwargs):
+        return kwargs['convert_pitch_to_agnostic'](self.text)
+
+
+@contract(None, props=['C10', 'C04'])
+class callback_meaning:
+    """The converter that the agnostic tokenizers pass to Token.export maps every Humdrum spelling to the spelling that occupies
+    the same staff position under G2, for every supported clef interpretation with any number of octave marks:
+    real code of the nested function, create_clef, import_pitch and pitch_to_gkern_string, executed symbolically."""
+    def inputs(g):
+        L, a, o = any_pitch(g, 3)
+        sign = g.choice('sign', ['G', 'F', 'C'])
+        line = g.choice('line', [1, 2, 3, 4])
+        g.assume((sign, line) in CLEF_OF)
+        return {'L': L, 'a': a, 'o': o, 'sign': sign, 'line': line,
+                'enc': '*clef' + sign + '^' * g.int('marks_up', 0) + 'v' * g.int('marks_down', 0) + str(line)}
+
+    def post_same_staff_position(L, a, o, sign, line, enc):
+        tz = AEKernTokenizer(token_categories=set(), last_clef=enc)
+        Lb, ob = BOTTOM[CLEF_OF[(sign, line)]]
+        return tz.tokenize(ProbeToken(spell(L, a, o))) == agnostic_spelling(L, a, o, Lb, ob)
